@@ -10,7 +10,7 @@ import Driver.Util
 namespace GorumsV.Driver
 open GorumsV.ReplyLoop
 
-def goodParams : Params := { exhausted := fun e r x => decide (e + r = x), preCheck := true }
+def goodParams : Params := { exhausted := fun e r x => decide (e + r = x), preCheck := true, ctxCause := true }
 
 /-- the table-driven quorum functions the harness implements as well -/
 def qfEval (kind : String) (k : Int) (reps : RepMap Int) : Int × Bool :=
@@ -50,6 +50,24 @@ def showOutcome : Outcome Int Nat → String
   | .ctxErr _ errs n => s!"ctx:{showIds errs}:{n}"
   | .waiting => "wait"
 
+def isCtxDone : Arrival Int Nat → Bool
+  | .ctxDone _ => true
+  | _ => false
+
+/-- The schedule the harness realises: it ends the context only after the arrival before it has been
+    consumed — i.e. after the loop has been through its exhaustion test — except when the context's end is
+    the first event of the case, which the harness issues before the call.  So the history the model is run
+    on is the case's arrival list, unless the part before the context's end already decides the call. -/
+def runCase (qf : RepMap Int → Int × Bool) (x : Nat) (as : List (Arrival Int Nat)) :
+    Outcome Int Nat × List (RepMap Int) :=
+  let pre := as.takeWhile (fun a => !isCtxDone a)
+  if pre.isEmpty then run goodParams qf x as
+  else
+    let r := run goodParams qf x pre
+    match r.1 with
+    | .waiting => run goodParams qf x as
+    | _ => r
+
 def qcLine (line : String) : String :=
   let fs := fields line
   match field? fs "id", (field? fs "x").bind String.toNat?, field? fs "qf", field? fs "arr" with
@@ -62,7 +80,7 @@ def qcLine (line : String) : String :=
         if as.any Option.isNone then s!"id={id} bad-op"
         else
           let as := as.filterMap (fun a => a)
-          let (o, log) := run goodParams (qfEval kind k) x as
+          let (o, log) := runCase (qfEval kind k) x as
           s!"id={id} out={showOutcome o} log={joinOr (log.map showMap) ";"}"
       | none => s!"id={id} bad-op"
     | _ => s!"id={id} bad-op"
